@@ -12,16 +12,19 @@ prop(
     "the queue; a datagram that fits an empty packet (space >= 1+|d|) is loaded; the no-length form ends the packet; recorded frames = written frames; the packet "
     "payload decodes (real FrameReader) to exactly the loaded datagrams in send order; every emitted frame is <= the peer limit and is accepted by a real "
     "DatagramFlow that advertised that limit, whose DatagramReader returns the payloads unchanged, unmerged, in order. Incoming: crafted frames in both forms around "
-    "the local limit: frame size (type + length field + payload) > local max <=> ProtocolViolation, otherwise readable in order.",
+    "the local limit: frame size (type + length field + payload) > local max <=> ProtocolViolation, otherwise readable in order. Whole-stack injection (l2-inject): a DATAGRAM frame injected through hook H3 into a connection whose victim advertised max_datagram_frame_size 0 must close it with PROTOCOL_VIOLATION.",
     level_note="The clause 'an accepted datagram on an open, uncongested connection is actually put on the wire' CANNOT be seen by this L1 leg: it drives "
     "try_load_data_into itself, whereas in the connection nothing calls it (qconnection/src/path/burst.rs Components::packages has `// TODO: datagram`). That clause, "
     "loss schedules and the ProtocolViolation close on the wire belong to the whole-stack (L2) leg. Trusted: the 30-line packet target and the FIFO model.",
     design_ref="DESIGN.md §3 C19",
     legs=[dict(name="datagram", crate="l1rec", sub="c19", shards={Q: 8, T: 16}, budget={Q: 8000, T: 150000}, timeout=1500),
           dict(name="l2", crate="l2", sub="c19", shards={Q: 8, T: 16}, budget={Q: 12, T: 150}, timeout={Q: 900, T: 7200}),
+          dict(name="l2-inject", crate="l2", sub="c04", args=["--prop", "C19"], shards={Q: 1, T: 1}, timeout=900),
           dict(name="asan", kind="asan", crate="l2", sub="c19", tiers=(T,), budget={T: 12}, timeout=5400, mandatory=False)],
     floors={
         Q: {
+            "probes_delivered": 1,
+
             "sweep_cases": 5000,
             "sends_accepted": 200_000,
             "sends_refused": 50_000,
